@@ -33,6 +33,18 @@ Theorem C12_later_results_unaffected : forall ops x,
             acont (am (arun false false (ops ++ [AMarshal x]))) r = x.
 Proof. exact marshal_result_fresh. Qed.
 
+(* encoder side of the callbacks: nothing writes through a slice a MarshalJSON / MarshalText call returned *)
+Definition writes_marshaler_result : bool := match marshaler_result_written with [] => false | _ => true end.
+Theorem C12_marshaler_source_facts : marshaler_result_written = [] /\ marshaler_call_sites <> 0%nat.
+Proof. split; [reflexivity|vm_compute; intro H; discriminate H]. Qed.
+(* histories that also encode values whose marshalers return windows into what the caller holds
+   (a RawMessage cut out of an earlier result or of an input, a marshaler's own scratch space) *)
+Theorem C12_marshaler_results_stay_the_callers : forall ops, views_intact (arun2 writes_marshaler_result ops).
+Proof. unfold writes_marshaler_result. rewrite (proj1 C12_marshaler_source_facts). exact no_aliasing_marshalers. Qed.
+Print Assumptions C12_marshaler_results_stay_the_callers.
+Theorem C12_writes_marshaler_result_refuted : exists ops, ~ views_intact (arun2 true ops).
+Proof. exact writes_marshaler_result_refuted. Qed.
+
 (* both flags matter *)
 Theorem C12_returns_pooled_refuted : exists ops, ~ views_intact (arun true false ops).
 Proof. exact returns_pooled_refuted. Qed.
